@@ -310,12 +310,18 @@ def gen_txn(rng, state, force=None):
     used = set()
     nops = rng.choice([0, 1, 1, 2, 3, 4, 6])
     for _ in range(nops):
+        if state.get("tomb") and rng.random() < 0.4:
+            # take a deletion back and delete another document of the same segment instead (which
+            # documents: decided when the transaction runs, from the writer's own reader, and
+            # recorded here so that the dictionary model and replays see it)
+            ops.append(["undelete", None])
+            continue
         r = rng.random()
         free = [k for k in live if k not in used]
-        if r < 0.55 or not free:
+        if r < 0.45 or not free:
             ops.append(("add", gen_doc(rng, state["next"])))
             state["next"] += 1
-        elif r < 0.75:
+        elif r < 0.72:
             k = rng.choice(free) if rng.random() < 0.9 else 10 ** 6
             used.add(k)
             ops.append(("delete", u"k%d" % k))
@@ -329,9 +335,31 @@ def gen_txn(rng, state, force=None):
            "merge": rng.choice(["default", "default", "nomerge", "nomerge", "optimize", "clear"]),
            "compound": rng.random() < 0.6,
            "outcome": rng.choice(["commit"] * 5 + ["cancel", "exception"]),
-           "schema": rng.choice([None] * 8 + ["add", "remove"])}
+           "schema": rng.choice([None] * 6 + ["add", "add", "add", "remove"])}
     if force:
         txn.update(force)
+    # The optional field goes through never -> present -> removed, once: a removed field's stored
+    # values are only hidden by the schema (they come back if the name is added again, unless a
+    # merge rewrote the segment meanwhile), which the dictionary model does not track.
+    phase = state.get("xphase", "never")
+    if txn["schema"] == "add" and phase != "never":
+        txn["schema"] = None
+    if txn["schema"] == "remove" and phase != "present":
+        txn["schema"] = None
+    if txn["schema"] and txn["outcome"] == "commit":
+        state["xphase"] = "present" if txn["schema"] == "add" else "removed"
+    # keys whose deleted version probably still sits in a segment (generation hint only)
+    if txn["outcome"] == "commit":
+        if txn["merge"] in ("optimize", "clear"):
+            state["tomb"] = []
+        else:
+            tomb = list(state.get("tomb", []))
+            for op in txn["ops"]:
+                if op[0] == "delete" and op[1] != u"k%d" % 10 ** 6:
+                    tomb.append(op[1])
+                elif op[0] == "undelete" and tomb:
+                    tomb.pop(0)
+            state["tomb"] = tomb
     return txn
 
 
@@ -351,6 +379,10 @@ def model_apply(docs, txn):
         elif op[0] == "update":
             new.pop(op[1]["k"], None)
             added[op[1]["k"]] = dict(op[1])
+        elif op[0] == "undelete" and op[1]:
+            new[op[1]["restored"]["k"]] = dict(op[1]["restored"])
+            if op[1]["deleted"]:
+                new.pop(op[1]["deleted"], None)
     if txn.get("schema") == "remove":
         # stored values of a removed field are filtered out by the readers
         new = dict((k, dict((f, v) for f, v in d.items() if f != "x")) for k, d in new.items())
@@ -366,6 +398,51 @@ def model_state(docs, nextkey):
 
 class Boom(Exception):
     pass
+
+
+def _plain_key(k):
+    """keys of generated documents (`k<number>`); marker documents of the harness are left alone"""
+    return isinstance(k, str) and k[:1] == "k" and k[1:].isdigit()
+
+
+def _undelete_swap(w, txn):
+    """`delete_document(n, delete=False)` for a deleted document of an existing segment plus the
+    deletion of a live document of the same segment (so the segment's deletion *count* stays the
+    same while the deletion *set* changes).  Returns what was done, for the dictionary model."""
+    touched = set()
+    for op in txn["ops"]:
+        if op[0] == "delete":
+            touched.add(op[1])
+        elif op[0] in ("add", "update"):
+            touched.add(op[1]["k"])
+        elif op[0] == "undelete" and op[1]:
+            touched.add(op[1]["restored"]["k"])
+            if op[1]["deleted"]:
+                touched.add(op[1]["deleted"])
+    r = w.reader()
+    try:
+        live = {}
+        for d in r.all_doc_ids():
+            live[r.stored_fields(d).get("k")] = d
+        bounds = [(off, off + lr.doc_count_all()) for lr, off in r.leaf_readers()]
+        for lo, hi in bounds:
+            dead = [d for d in range(lo, hi) if r.is_deleted(d)]
+            for d in dead:
+                sf = r.stored_fields(d)
+                k = sf.get("k")
+                if k is None or k in live or k in touched or not _plain_key(k):
+                    continue
+                victims = [(kk, dd) for kk, dd in sorted(live.items())
+                           if lo <= dd < hi and kk not in touched and _plain_key(kk)]
+                w.delete_document(d, delete=False)
+                deleted = None
+                if victims:
+                    deleted = victims[0][0]
+                    w.delete_document(victims[0][1])
+                return {"restored": dict(sf), "deleted": deleted}
+    finally:
+        r.close()
+    return None
 
 
 def run_txn(ix, txn, writer_kwargs=None, on_writer=None, log=None):
@@ -391,6 +468,9 @@ def run_txn(ix, txn, writer_kwargs=None, on_writer=None, log=None):
                 op[1].pop("x", None)
                 if hasx:
                     op[1]["x"] = u"xray" if int(op[1]["k"][1:]) % 2 else u"yankee"
+            if op[0] == "undelete":
+                op[1] = _undelete_swap(w, txn)
+                continue
             if op[0] == "add":
                 w.add_document(**op[1])
             elif op[0] == "delete":
